@@ -341,6 +341,24 @@ def h_matrix(cx, T, N, pa):
             cx.fail('projected: list of the wrong length accepted')
     res = a.projected()
     check_corr(cx, res, T, 1, [None if entry(a, t) is None else np.array([1.0 * entry(a, t)[0, 0] * 1.0 + sum(0.0 * entry(a, t)[i, j] for i in range(N) for j in range(N) if (i, j) != (0, 0))], dtype=object) for t in range(T)], 'projected-default')
+    # is_matrix_symmetric hashes the entries, which symbolic data cannot pass: it is exercised on concrete correlators (every timeslice must be looked at)
+    def cmat(sym_pattern):
+        content = []
+        for t, symm in enumerate(sym_pattern):
+            if symm is None:
+                content.append(None)
+                continue
+            m = np.empty((2, 2), dtype=object)
+            for i in range(2):
+                for j in range(2):
+                    key = (min(i, j), max(i, j)) if symm else (i, j)
+                    m[i, j] = pe.Obs([np.array([1.0, 1.5, 0.5, 2.0, 1.0 + 0.25 * (3 * key[0] + key[1])]) + t], ['c|r1'])
+            content.append(m)
+        return pe.Corr(content)
+    for pat, want in (((True, True, True), True), ((True, False, True), False), ((True, True, False), False), ((None, True, False), False), ((None, True, None), True), ((False, True, True), False)):
+        cx.expect(cmat(pat).is_matrix_symmetric() is want, 'is_matrix_symmetric looks at every defined timeslice %s' % (pat,))
+        ms = cmat(pat).matrix_symmetric()
+        cx.expect(all(ms.content[t] is None or abs(ms.content[t][0, 1].value - ms.content[t][1, 0].value) < 1e-14 for t in range(3)), 'matrix_symmetric() is symmetric on every timeslice %s' % (pat,))
     if cx.mode == 'sym':
         cx.patch(pe.Corr, 'is_matrix_symmetric', lambda self: False)     # hashing of symbolic data is not modelled: take the general branch
     res = a.matrix_symmetric()
